@@ -414,6 +414,14 @@ def sec_region_batch(rec, b=3, compute=False, kinds=None, patches=None):
             rec.fact(f"{tag}/path{pi}/original-untouched", all(img.root == f"tomo{kk_}" for kk_, img in bl.images.items()), key="C15/batch-binning/mutates-original", detail={})
 
 
+def sec_sampling_rule(rec, patches=None):
+    """loading at a molecule samples the tomogram on the molecule's grid, also when the crop window (box + spline margin) crosses a low face of the tomogram
+    (executed by C02's sampling section; the original and the binned loader both rely on it)"""
+    from .c02 import sec_sampling
+
+    sec_sampling(rec, order=1, corner_safe=False, patches=patches)
+
+
 def sec_conformance(rec):
     """ImgStub.reshape/sum block contract vs numpy"""
     rng = np.random.default_rng(0)
@@ -475,7 +483,7 @@ def _shape_bins(tier):
 
 
 def sections(tier):
-    S = [("conformance", "checks.c15", "sec_conformance", {})]
+    S = [("conformance", "checks.c15", "sec_conformance", {}), ("sampling-rule", "checks.c15", "sec_sampling_rule", {})]
     pairs = _shape_bins(tier)
     chunk = 3 if quick(tier) else 10
     for i in range(0, len(pairs), chunk):
